@@ -26,6 +26,9 @@ def sh(cmd, cwd=None, env=None, timeout=3600):
     return p.returncode, p.stdout.decode(errors="replace")
 
 
+SEED = "0"      # --seed N: evaluate under another VERIF_SEED (results are printed, the kept meta.json is not rewritten)
+
+
 def evaluate(patch, demo, meta, sid, tier, checks=None):
     prop = meta["property"]
     wt = tempfile.mkdtemp(prefix="vf-seed-")
@@ -61,7 +64,7 @@ def evaluate(patch, demo, meta, sid, tier, checks=None):
         res["demo_output"] = out[-400:]
         det = {}
         for c in (checks or [prop]):
-            cenv = dict(os.environ, VF_REPO=wt, VF_EVIDENCE_DIR="/tmp/vf-selftest-evidence", VERIF_SEED="0")
+            cenv = dict(os.environ, VF_REPO=wt, VF_EVIDENCE_DIR="/tmp/vf-selftest-evidence", VERIF_SEED=SEED)
             rc, out = sh([os.path.join(VERIF, "check"), c, "--tier", tier], cwd=VERIF, env=cenv, timeout=6 * 3600)
             lines = [ln for ln in out.splitlines() if ln.startswith(("VIOLATION", "  clause", "INCONCLUSIVE", c + " "))]
             det[c] = {"exit": rc, "detected": rc == 1, "lines": lines[:4]}
@@ -80,6 +83,9 @@ def main():
     extra = None
     rnd = ""
     for i, a in enumerate(sys.argv):
+        if a == "--seed":
+            global SEED
+            SEED = sys.argv[i + 1]
         if a == "--round":
             rnd = sys.argv[i + 1]
         if a == "--tier":
@@ -88,7 +94,7 @@ def main():
             only = sys.argv[i + 1]
         if a == "--checks":
             extra = sys.argv[i + 1].split(",")
-    args = [a for a in args if a not in (tier, only, rnd) and (not extra or a != ",".join(extra))]
+    args = [a for a in args if a not in (tier, only, rnd) and (not extra or a != ",".join(extra)) and not (SEED != "0" and a == SEED)]
     results = []
     for src in args:
         if os.path.exists(os.path.join(src, "patch.diff")):
@@ -115,7 +121,7 @@ def main():
                 for ln in d["lines"][:3]:
                     print("     ", ln[:230])
             sys.stdout.flush()
-            if ok:
+            if ok and SEED == "0":
                 dest = os.path.join(VERIF, "seeded", sid)
                 os.makedirs(dest, exist_ok=True)
                 if os.path.abspath(patch) != os.path.abspath(os.path.join(dest, "patch.diff")):
